@@ -24,7 +24,8 @@ Init == ti \in 1..Len(Traces) /\ k = 1 /\ p = PEmpty /\ S = SInit /\ drift = 0 /
 
 Judged(q, s) ==
   UNION {IF s.obs[c].panic # "" THEN {<<c, s.i, "panic">>}
-         ELSE UNION {{<<c, r, pr>> : pr \in P_Observation(q[r], s.obs[c].regs[r], Combos[c].mon)} : r \in Regs}
+         ELSE UNION {IF s.obs[c].regs[r].panic # "" THEN {<<c, r, "panic">>}
+                     ELSE {<<c, r, pr>> : pr \in P_Observation(q[r], s.obs[c].regs[r], Combos[c].mon)} : r \in Regs}
          : c \in 1..Len(Combos)}
 
 Step == /\ k <= Len(Steps)
